@@ -60,13 +60,15 @@ def round_step(x, step):
 
 
 class Walker:
-    def __init__(self, ctx, ej, tj, equipment, network):
+    def __init__(self, ctx, ej, tj, equipment, network, design_power_dbm=None):
         self.ctx, self.ej, self.tj, self.eq, self.net = ctx, ej, tj, equipment, network
         self.span = ej['Span'][0]
         self.si = ej['SI'][0]
         self.power_mode = self.span.get('power_mode', True)
         self.orig = {e['uid']: e for e in tj['elements']}
-        self.pref = self.si.get('power_dbm', 0)
+        # reference power of the design: the SI value unless the design was asked for another one (the --power option
+        # of the scripts, a power sweep)
+        self.pref = self.si.get('power_dbm', 0) if design_power_dbm is None else design_power_dbm
         self.lib = {e['type_variety']: e for e in ej['Edfa']}
         self.roadm_lib = {r.get('type_variety', 'default'): r for r in ej['Roadm']}
 
@@ -423,10 +425,19 @@ def run_case(case, ctx):
     SimParams.set_params({})
     ctx.dump.update({'equipment_span': ej['Span'], 'equipment_si': ej['SI'], 'equipment_roadm': ej['Roadm'][:1],
                      'topology': tj})
-    G.design(equipment, network)
-    wk = Walker(ctx, ej, tj, equipment, network)
+    design_power = None
+    if rng.random() < 0.3:
+        # the design is made for another reference power than the SI one (what `--power` does)
+        design_power = ej['SI'][0].get('power_dbm', 0) + G.pick(rng, [-2, -1, 1, 2, 0.5])
+        if design_power == 0:
+            # 0 is the command line's "not given" (default of --power): the SI value is used, by convention
+            design_power = None
+        else:
+            ctx.count('designs_with_another_reference_power')
+    G.design(equipment, network, **({'args_power': design_power} if design_power is not None else {}))
+    wk = Walker(ctx, ej, tj, equipment, network, design_power_dbm=design_power)
     wk.walk()
-    if not ctx.violations:
+    if not ctx.violations and design_power is None:
         i4_propagate(ctx, wk)
     ctx.cls(f'kind:{case["kind"]}', 'mode:power' if wk.power_mode else 'mode:gain',
             f'dpr:{ej["Span"][0]["delta_power_range_db"]}', f'eol:{ej["Span"][0].get("EOL", 0)}')
